@@ -385,8 +385,15 @@ def rule_error_terminal(ctx, rep: Report, rid="K6"):
             top = strip(cond)
             is_or = top.get("kind") == "BinaryOperator" and top.get("opcode") == "||"
             raises = any(callee(c) in ("mexErrMsgIdAndTxt", "mexErrMsgTxt", "error") for b in st["inner"][1:] for c in calls(b))
-            ok = srcs == want and is_or and raises
-            detail = f"condition compares {sorted(srcs)} joined by {'||' if is_or else top.get('opcode')}; raises={raises}"
+            norm = {tuple(sorted(x)) for x in srcs}
+            # equivalent normal forms: (M != 1 || N != 1)   |   numel != 1   |   !mxIsScalar(x)
+            form_mn = norm == {tuple(sorted(x)) for x in want} and is_or
+            form_numel = norm == {("1", "mxGetNumberOfElements")} and top.get("kind") == "BinaryOperator" and top.get("opcode") == "!="
+            form_isscalar = top.get("kind") == "UnaryOperator" and top.get("opcode") == "!" and \
+                callee(strip(top["inner"][0])) == "mxIsScalar"
+            ok = (form_mn or form_numel or form_isscalar) and raises
+            detail = (f"condition {sorted(srcs)} ({top.get('opcode')}) is none of `M != 1 || N != 1`, `numel != 1`, "
+                      f"`!mxIsScalar`; raises={raises}: some non-1x1 array (e.g. an empty one) passes as a scalar")
     rep.add(rid, "checkScalar:rejects anything but 1x1", ok, detail or "no if-statement found", hloc(f))
     fs = h.functions("checkArguments")
     if fs:
